@@ -559,6 +559,7 @@ structure GhostOk (cfg : Cfg) (d : XDrv) (g : Ghost) : Prop where
   shape : ∀ v, g.shape = some v → v = d.mode.cursorshape ∧ (cfg.repliesGuarded = true → d.init.cursorshape ≠ 0)
   visInit : cfg.repliesGuarded = true → d.mode.cursorvis = 0 → d.init.cursorvis ≠ 0
   le1 : d.mode.altscreen ≤ 1 ∧ d.mode.cursorvis ≤ 1 ∧ d.mode.keypad ≤ 1 ∧ d.mode.cursorblink ≤ 1
+  rgb8 : ∀ v, g.rgb8 = some v → v = d.cap.rgb8 ∧ (v = 0 ∨ v = 1) ∧ (cfg.rgb8Guarded = true → d.init.rgb8 ≠ 0)
 
 theorem bool01_cases (v : Int) : (v = 0 ∧ bool01 v = 0) ∨ (v ≠ 0 ∧ bool01 v = 1) := by
   unfold bool01; by_cases h : v = 0 <;> simp [h]
@@ -572,9 +573,9 @@ theorem setctl_ghost (cfg : Cfg) (d : XDrv) (g : Ghost) (c : Option Ctl) (v : In
     (hmouse : c = some .mouse → 0 ≤ v ∧ v ≤ 3)
     (hkp : c = some .keypadApp → cfg.keypadRecorded = true ∨ v = 0) :
     GhostOk cfg (setctlInt cfg d c v).1 (if (setctlInt cfg d c v).2.2 = true then g.set c v else g) := by
-  obtain ⟨h1, h2, h3, h4, h5, h6, h7, h8⟩ := hg
+  obtain ⟨h1, h2, h3, h4, h5, h6, h7, h8, h9⟩ := hg
   cases c with
-  | none => simp [setctlInt]; exact ⟨h1, h2, h3, h4, h5, h6, h7, h8⟩
+  | none => simp [setctlInt]; exact ⟨h1, h2, h3, h4, h5, h6, h7, h8, h9⟩
   | some c =>
     cases c
     case altscreen =>
@@ -582,11 +583,11 @@ theorem setctl_ghost (cfg : Cfg) (d : XDrv) (g : Ghost) (c : Option Ctl) (v : In
       split
       · rename_i heq
         simp only [if_true, Ghost.set]
-        refine ⟨?_, h2, h3, h4, h5, h6, h7, h8⟩
+        refine ⟨?_, h2, h3, h4, h5, h6, h7, h8, h9⟩
         show bool01 v = (d.mode.altscreen : Int)
         rcases bool01_cases v with ⟨hv, hb⟩ | ⟨hv, hb⟩ <;> simp [hv] at heq <;> rw [hb] <;> omega
       · simp only [if_true, Ghost.set]
-        refine ⟨?_, h2, h3, h4, h5, h6, h7, ?_⟩
+        refine ⟨?_, h2, h3, h4, h5, h6, h7, ?_, h9⟩
         · simp only [ModeLayout.w_mode_altscreen]; exact (wrapU1_bool_int v).symm
         · simp only [ModeLayout.w_mode_altscreen]
           rcases bool01_cases v with ⟨_, hb⟩ | ⟨_, hb⟩ <;> rw [hb] <;> simp [wrapU] <;> omega
@@ -595,11 +596,11 @@ theorem setctl_ghost (cfg : Cfg) (d : XDrv) (g : Ghost) (c : Option Ctl) (v : In
       split
       · rename_i heq
         simp only [if_true, Ghost.set]
-        refine ⟨h1, ?_, h3, h4, h5, h6, h7, h8⟩
+        refine ⟨h1, ?_, h3, h4, h5, h6, h7, h8, h9⟩
         show bool01 v = (d.mode.cursorvis : Int)
         rcases bool01_cases v with ⟨hv, hb⟩ | ⟨hv, hb⟩ <;> simp [hv] at heq <;> rw [hb] <;> omega
       · simp only [if_true, Ghost.set]
-        refine ⟨h1, ?_, h3, h4, h5, h6, ?_, ?_⟩
+        refine ⟨h1, ?_, h3, h4, h5, h6, ?_, ?_, h9⟩
         · simp only [ModeLayout.w_mode_cursorvis]; exact (wrapU1_bool_int v).symm
         · intro hgd _
           simp only [hgd, if_true, ModeLayout.w_initialised_cursorvis]; decide
@@ -610,7 +611,7 @@ theorem setctl_ghost (cfg : Cfg) (d : XDrv) (g : Ghost) (c : Option Ctl) (v : In
       split
       · rename_i heq
         simp only [if_true, Ghost.set]
-        refine ⟨h1, h2, h3, h4, ?_, h6, h7, h8⟩
+        refine ⟨h1, h2, h3, h4, ?_, h6, h7, h8, h9⟩
         intro x hx
         simp only [Option.some.injEq] at hx
         subst hx
@@ -618,7 +619,7 @@ theorem setctl_ghost (cfg : Cfg) (d : XDrv) (g : Ghost) (c : Option Ctl) (v : In
         have := heq.2
         rcases bool01_cases v with ⟨hv, hb⟩ | ⟨hv, hb⟩ <;> simp [hv] at this <;> rw [hb] <;> omega
       · simp only [if_true, Ghost.set]
-        refine ⟨h1, h2, h3, h4, ?_, h6, h7, ?_⟩
+        refine ⟨h1, h2, h3, h4, ?_, h6, h7, ?_, h9⟩
         · intro x hx
           simp only [Option.some.injEq] at hx
           subst hx
@@ -633,9 +634,9 @@ theorem setctl_ghost (cfg : Cfg) (d : XDrv) (g : Ghost) (c : Option Ctl) (v : In
       split
       · rename_i heq
         simp only [if_true, Ghost.set]
-        exact ⟨h1, h2, heq.symm, h4, h5, h6, h7, h8⟩
+        exact ⟨h1, h2, heq.symm, h4, h5, h6, h7, h8, h9⟩
       · simp only [if_true, Ghost.set]
-        refine ⟨h1, h2, ?_, h4, h5, h6, h7, h8⟩
+        refine ⟨h1, h2, ?_, h4, h5, h6, h7, h8, h9⟩
         show v = ((wrapU ModeLayout.w_mode_mouse v : Nat) : Int)
         rw [show ModeLayout.w_mode_mouse = 2 from rfl, wrapU2_small _ hv]; omega
     case cursorshape =>
@@ -643,7 +644,7 @@ theorem setctl_ghost (cfg : Cfg) (d : XDrv) (g : Ghost) (c : Option Ctl) (v : In
       split
       · rename_i heq
         simp only [if_true, Ghost.set]
-        refine ⟨h1, h2, h3, h4, h5, ?_, h7, h8⟩
+        refine ⟨h1, h2, h3, h4, h5, ?_, h7, h8, h9⟩
         intro x hx
         show (x : Int) = _ ∧ _
         split at hx
@@ -651,7 +652,7 @@ theorem setctl_ghost (cfg : Cfg) (d : XDrv) (g : Ghost) (c : Option Ctl) (v : In
           exact ⟨heq.2.symm, fun _ => heq.1⟩
         · cases hx
       · simp only [if_true, Ghost.set]
-        refine ⟨h1, h2, h3, h4, h5, ?_, h7, h8⟩
+        refine ⟨h1, h2, h3, h4, h5, ?_, h7, h8, h9⟩
         intro x hx
         split at hx
         · rename_i hr
@@ -666,14 +667,14 @@ theorem setctl_ghost (cfg : Cfg) (d : XDrv) (g : Ghost) (c : Option Ctl) (v : In
       split
       · rename_i heq
         simp only [if_true, Ghost.set]
-        refine ⟨h1, h2, h3, ?_, h5, h6, h7, h8⟩
+        refine ⟨h1, h2, h3, ?_, h5, h6, h7, h8, h9⟩
         show bool01 v = (d.mode.keypad : Int)
         rcases bool01_cases v with ⟨hv, hb⟩ | ⟨hv, hb⟩ <;> simp [hv] at heq <;> rw [hb] <;> omega
       · rename_i hne
         simp only [if_true, Ghost.set]
         by_cases hrec : cfg.keypadRecorded = true
         · simp only [hrec, if_true]
-          refine ⟨h1, h2, h3, ?_, h5, h6, h7, ?_⟩
+          refine ⟨h1, h2, h3, ?_, h5, h6, h7, ?_, h9⟩
           · simp only [ModeLayout.w_mode_keypad]; exact (wrapU1_bool_int v).symm
           · simp only [ModeLayout.w_mode_keypad]
             rcases bool01_cases v with ⟨_, hb⟩ | ⟨_, hb⟩ <;> rw [hb] <;> simp [wrapU] <;> omega
@@ -684,13 +685,19 @@ theorem setctl_ghost (cfg : Cfg) (d : XDrv) (g : Ghost) (c : Option Ctl) (v : In
           · subst hv0; simp [hz] at hne
     case capRgb8 =>
       simp only [setctlInt, if_true, Ghost.set]
-      exact ⟨h1, h2, h3, h4, h5, h6, h7, h8⟩
-    all_goals (simp [setctlInt]; exact ⟨h1, h2, h3, h4, h5, h6, h7, h8⟩)
+      refine ⟨h1, h2, h3, h4, h5, h6, h7, h8, ?_⟩
+      intro x hx
+      simp only [Option.some.injEq] at hx
+      subst hx
+      refine ⟨?_, ?_, fun hgd => by simp [hgd]⟩
+      · simp only [ModeLayout.w_cap_rgb8]; exact (wrapU1_bool_int v).symm
+      · rcases bool01_cases v with ⟨_, hb⟩ | ⟨_, hb⟩ <;> simp [hb]
+    all_goals (simp [setctlInt]; exact ⟨h1, h2, h3, h4, h5, h6, h7, h8, h9⟩)
 
 
 /-! ### the invariant of the mode life cycle -/
 
-/-- The operations that trigger one of the three defects of the unrepaired tree. -/
+/-- The operations that trigger one of the defects of the unrepaired tree. -/
 def trigger (cfg : Cfg) (s : Sys) (g : Ghost) : Op → Bool
   | .ctl (some .keypadApp) v => !cfg.keypadRecorded && decide (v ≠ 0)
   | .tick nosetup => !cfg.keypadRecorded && !nosetup && (match s.top with
@@ -700,6 +707,7 @@ def trigger (cfg : Cfg) (s : Sys) (g : Ghost) : Op → Bool
     !cfg.repliesGuarded && decide (value = 1) &&
       ((decide (mode = 25) && decide (s.term.drv.mode.cursorvis = 0)) || (decide (mode = 12) && g.blink == some 0))
   | .replyShape _ => !cfg.repliesGuarded && g.shape.isSome
+  | .replySgr _ rgb => !cfg.rgb8Guarded && rgb && g.rgb8 == some 0
   | _ => false
 
 /-- Every value of the cached pen has an exact encoding. -/
@@ -875,14 +883,14 @@ theorem onModereport_ok (cfg : Cfg) (d : XDrv) (g : Ghost) (mode value : Int) (h
     (onModereport cfg d mode value).mode.cursorvis = d.mode.cursorvis ∧
     (onModereport cfg d mode value).mode.mouse = d.mode.mouse ∧
     (onModereport cfg d mode value).mode.keypad = d.mode.keypad := by
-  obtain ⟨h1, h2, h3, h4, h5, h6, h7, h8⟩ := hg
+  obtain ⟨h1, h2, h3, h4, h5, h6, h7, h8, h9⟩ := hg
   unfold onModereport
   by_cases hm12 : mode = 12
   · subst hm12
     simp only [if_true]
     by_cases hc : value = 1 ∧ (!cfg.repliesGuarded || decide (d.init.cursorblink = 0)) = true
     · rw [if_pos hc]
-      refine ⟨⟨h1, h2, h3, h4, ?_, h6, h7, ⟨h8.1, h8.2.1, h8.2.2.1, by simp [ModeLayout.w_mode_cursorblink, wrapU_w1]⟩⟩, rfl, rfl, rfl, rfl⟩
+      refine ⟨⟨h1, h2, h3, h4, ?_, h6, h7, ⟨h8.1, h8.2.1, h8.2.2.1, by simp [ModeLayout.w_mode_cursorblink, wrapU_w1]⟩, h9⟩, rfl, rfl, rfl, rfl⟩
       intro x hx
       obtain ⟨hx1, hx2⟩ := h5 x hx
       refine ⟨?_, fun _ => by simp [ModeLayout.w_initialised_cursorblink, wrapU_w1]⟩
@@ -895,7 +903,7 @@ theorem onModereport_ok (cfg : Cfg) (d : XDrv) (g : Ghost) (mode value : Int) (h
       · have := hx2 hgd
         simp [hgd, this] at hc
     · rw [if_neg hc]
-      refine ⟨⟨h1, h2, h3, h4, ?_, h6, h7, h8⟩, rfl, rfl, rfl, rfl⟩
+      refine ⟨⟨h1, h2, h3, h4, ?_, h6, h7, h8, h9⟩, rfl, rfl, rfl, rfl⟩
       intro x hx
       exact ⟨(h5 x hx).1, fun _ => by simp [ModeLayout.w_initialised_cursorblink, wrapU_w1]⟩
   · simp only [hm12, if_false]
@@ -917,20 +925,25 @@ theorem onModereport_ok (cfg : Cfg) (d : XDrv) (g : Ghost) (mode value : Int) (h
           · omega
         have hw : wrapU ModeLayout.w_mode_cursorvis 1 = d.mode.cursorvis := by
           rw [hv1]; simp [ModeLayout.w_mode_cursorvis, wrapU_w1]
-        refine ⟨⟨h1, ?_, h3, h4, h5, h6, ?_, ⟨h8.1, ?_, h8.2.2⟩⟩, rfl, ?_, rfl, rfl⟩
+        refine ⟨⟨h1, ?_, h3, h4, h5, h6, ?_, ⟨h8.1, ?_, h8.2.2⟩, h9⟩, rfl, ?_, rfl, rfl⟩
         · show g.vis = ((wrapU ModeLayout.w_mode_cursorvis 1 : Nat) : Int); rw [hw]; exact h2
         · intro _ _; simp [ModeLayout.w_initialised_cursorvis, wrapU_w1]
         · show wrapU ModeLayout.w_mode_cursorvis 1 ≤ 1; rw [hw]; exact h8.2.1
         · exact hw
       · rw [if_neg hc]
-        refine ⟨⟨h1, h2, h3, h4, h5, h6, ?_, h8⟩, rfl, rfl, rfl, rfl⟩
+        refine ⟨⟨h1, h2, h3, h4, h5, h6, ?_, h8, h9⟩, rfl, rfl, rfl, rfl⟩
         intro _ _; simp [ModeLayout.w_initialised_cursorvis, wrapU_w1]
     · simp only [hm25, if_false]
       by_cases hm69 : mode = 69
       · rw [if_pos hm69]
-        exact ⟨⟨h1, h2, h3, h4, h5, h6, h7, h8⟩, rfl, rfl, rfl, rfl⟩
+        refine ⟨⟨h1, h2, h3, h4, h5, h6, h7, h8, ?_⟩, rfl, rfl, rfl, rfl⟩
+        intro x hx
+        obtain ⟨hx1, hx2⟩ := h9 x hx
+        refine ⟨?_, hx2⟩
+        show x = ((if _ then _ else d.cap : Caps).rgb8 : Int)
+        split <;> exact hx1
       · rw [if_neg hm69]
-        exact ⟨⟨h1, h2, h3, h4, h5, h6, h7, h8⟩, rfl, rfl, rfl, rfl⟩
+        exact ⟨⟨h1, h2, h3, h4, h5, h6, h7, h8, h9⟩, rfl, rfl, rfl, rfl⟩
 
 theorem setctl_ret (cfg : Cfg) (d : XDrv) (c : Ctl) (v : Int)
     (hc : c = .altscreen ∨ c = .cursorvis ∨ c = .mouse ∨ c = .keypadApp) :
@@ -977,9 +990,10 @@ theorem setupterm_inv (cfg : Cfg) (hrec : cfg.keypadRecorded = true) (top : Top)
     refine ⟨m4, ?_, s4, l4, ?_, e4, e2, ?_⟩ <;> try (first | rfl | trivial)
     · rw [feed_append, feed_append, feed_append, feed_append, f1, f2, f3, f4, feed_clearScreen]
     · have hua' : (top.useAlt : Int) ≠ 0 := by omega
-      obtain ⟨a1, a2, a3, a4, a5, a6, a7, a8⟩ := g4
+      obtain ⟨a1, a2, a3, a4, a5, a6, a7, a8, a9⟩ := g4
       exact ⟨by simpa [Ghost.set, bool01, hua', hua] using a1, by simpa [Ghost.set, bool01] using a2, by simpa [Ghost.set] using a3,
-        by simpa [Ghost.set, bool01] using a4, by simpa [Ghost.set] using a5, by simpa [Ghost.set] using a6, a7, a8⟩
+        by simpa [Ghost.set, bool01] using a4, by simpa [Ghost.set] using a5, by simpa [Ghost.set] using a6, a7, a8,
+        by simpa [Ghost.set] using a9⟩
   · simp only [if_neg hua]
     obtain ⟨m2, f2, s2, l2, g2⟩ := setctl_all cfg hrec t0.drv g .cursorvis 0 m A (by simp) (by simp) hsh hml hgh
     obtain ⟨m3, f3, s3, l3, g3⟩ := setctl_all cfg hrec _ _ .mouse 2 m2 A (by simp) (by simp) s2 l2 g2
@@ -987,9 +1001,10 @@ theorem setupterm_inv (cfg : Cfg) (hrec : cfg.keypadRecorded = true) (top : Top)
     refine ⟨m4, ?_, s4, l4, ?_, e4, e2, ?_⟩ <;> try (first | rfl | trivial)
     · rw [feed_append, feed_append, feed_append, feed_append, feed_nil, f2, f3, f4, feed_clearScreen]
     · have hua' : ¬ (top.useAlt : Int) ≠ 0 := by omega
-      obtain ⟨a1, a2, a3, a4, a5, a6, a7, a8⟩ := g4
+      obtain ⟨a1, a2, a3, a4, a5, a6, a7, a8, a9⟩ := g4
       exact ⟨by simpa [Ghost.set, bool01, hua', hua] using a1, by simpa [Ghost.set, bool01] using a2, by simpa [Ghost.set] using a3,
-        by simpa [Ghost.set, bool01] using a4, by simpa [Ghost.set] using a5, by simpa [Ghost.set] using a6, a7, a8⟩
+        by simpa [Ghost.set, bool01] using a4, by simpa [Ghost.set] using a5, by simpa [Ghost.set] using a6, a7, a8,
+        by simpa [Ghost.set] using a9⟩
 
 theorem step_inv (cfg : Cfg) (s : Sys) (vt : VT) (ph ph' : Phase) (g : Ghost) (op : Op)
     (h : MInv cfg s vt ph g) (htk : TkInv s ph) (hok : opOk op = true) (hph : phaseNext ph op = some ph')
@@ -1034,7 +1049,7 @@ theorem step_inv (cfg : Cfg) (s : Sys) (vt : VT) (ph ph' : Phase) (g : Ghost) (o
     obtain ⟨hd1, hd2⟩ := penNext_dom true s.term.pen p hpd hp
     simp only [Sys.step, Term.putpen]
     rw [feed_drvChpen _ _ _ _ _ _ hd2]
-    exact ⟨rfl, hml, hkz, hst, hsh, fun hne => absurd rfl hne, ⟨hgh.alt, hgh.vis, hgh.mouse, hgh.keypad, hgh.blink, hgh.shape, hgh.visInit, hgh.le1⟩, hsu, hd1⟩
+    exact ⟨rfl, hml, hkz, hst, hsh, fun hne => absurd rfl hne, ⟨hgh.alt, hgh.vis, hgh.mouse, hgh.keypad, hgh.blink, hgh.shape, hgh.visInit, hgh.le1, hgh.rgb8⟩, hsu, hd1⟩
   | chpen p =>
     cases ph <;> simp [phaseNext] at hph
     subst hph
@@ -1042,7 +1057,7 @@ theorem step_inv (cfg : Cfg) (s : Sys) (vt : VT) (ph ph' : Phase) (g : Ghost) (o
     obtain ⟨hd1, hd2⟩ := penNext_dom false s.term.pen p hpd hp
     simp only [Sys.step, Term.putpen]
     rw [feed_drvChpen _ _ _ _ _ _ hd2]
-    exact ⟨rfl, hml, hkz, hst, hsh, fun hne => absurd rfl hne, ⟨hgh.alt, hgh.vis, hgh.mouse, hgh.keypad, hgh.blink, hgh.shape, hgh.visInit, hgh.le1⟩, hsu, hd1⟩
+    exact ⟨rfl, hml, hkz, hst, hsh, fun hne => absurd rfl hne, ⟨hgh.alt, hgh.vis, hgh.mouse, hgh.keypad, hgh.blink, hgh.shape, hgh.visInit, hgh.le1, hgh.rgb8⟩, hsu, hd1⟩
   | print bytes =>
     cases ph <;> simp [phaseNext] at hph
     subst hph
@@ -1094,7 +1109,7 @@ theorem step_inv (cfg : Cfg) (s : Sys) (vt : VT) (ph ph' : Phase) (g : Ghost) (o
     rw [Term.reply_running cfg _ _ (htk.tk rfl) htk.pend]
     refine ⟨rfl, hml, hkz, ?_, fun _ => ⟨hs.alt, hs.vis, hs.mouse, hs.sgr, hs.keypad⟩, fun hne => absurd rfl hne, ?_, hsu, hpd⟩
     · simpa using hst
-    · refine ⟨hgh.alt, hgh.vis, hgh.mouse, hgh.keypad, hgh.blink, ?_, hgh.visInit, hgh.le1⟩
+    · refine ⟨hgh.alt, hgh.vis, hgh.mouse, hgh.keypad, hgh.blink, ?_, hgh.visInit, hgh.le1, hgh.rgb8⟩
       intro x hx
       have hx : g.shape = some x := hx
       obtain ⟨hx1, hx2⟩ := hgh.shape x hx
@@ -1112,7 +1127,25 @@ theorem step_inv (cfg : Cfg) (s : Sys) (vt : VT) (ph ph' : Phase) (g : Ghost) (o
     rw [Term.reply_running cfg _ _ (htk.tk rfl) htk.pend]
     refine ⟨rfl, hml, hkz, ?_, fun _ => ⟨hs.alt, hs.vis, hs.mouse, hs.sgr, hs.keypad⟩, fun hne => absurd rfl hne, ?_, hsu, hpd⟩
     · simpa using hst
-    · exact ⟨hgh.alt, hgh.vis, hgh.mouse, hgh.keypad, hgh.blink, hgh.shape, hgh.visInit, hgh.le1⟩
+    · refine ⟨hgh.alt, hgh.vis, hgh.mouse, hgh.keypad, hgh.blink, hgh.shape, hgh.visInit, hgh.le1, ?_⟩
+      intro x hx
+      have hx : g.rgb8 = some x := hx
+      obtain ⟨hx1, hx01, hx2⟩ := hgh.rgb8 x hx
+      refine ⟨?_, hx01, hx2⟩
+      show x = ((onDecrqssSgr cfg s.term.drv colon rgb).cap.rgb8 : Int)
+      simp only [onDecrqssSgr]
+      split
+      · rename_i hc
+        cases hgd : cfg.rgb8Guarded
+        · -- unguarded: the trigger excludes a forced "off"
+          have hr : rgb = true := hc.1
+          simp only [trigger, hgd, hr, hx, Bool.not_false, Bool.true_and, beq_eq_false_iff_ne, ne_eq, Option.some.injEq] at hnt
+          rcases hx01 with h0 | h1
+          · exact absurd h0 hnt
+          · rw [h1]; simp [ModeLayout.w_cap_rgb8, wrapU_w1]
+        · have := hx2 hgd
+          simp [hgd, this] at hc
+      · exact hx1
   | pause =>
     cases ph <;> simp [phaseNext] at hph
     subst hph
@@ -1254,7 +1287,7 @@ theorem build_inv (cfg : Cfg) (toplevel : Bool) (m0 : VModes) (h : m0.standard =
   · simp [h3, modeForMouse]
   · simpa using h4
   · simpa using h5
-  · exact ⟨rfl, rfl, rfl, rfl, (fun _ hx => by cases hx), (fun _ hx => by cases hx), (fun _ hz => by cases hz), ⟨Nat.zero_le 1, Nat.le_refl 1, Nat.zero_le 1, Nat.zero_le 1⟩⟩
+  · exact ⟨rfl, rfl, rfl, rfl, (fun _ hx => by cases hx), (fun _ hx => by cases hx), (fun _ hz => by cases hz), ⟨Nat.zero_le 1, Nat.le_refl 1, Nat.zero_le 1, Nat.zero_le 1⟩, (fun _ hx => by cases hx)⟩
   · intro top ht
     cases toplevel <;> simp at ht
     subst ht; rfl
@@ -1263,7 +1296,7 @@ theorem build_inv (cfg : Cfg) (toplevel : Bool) (m0 : VModes) (h : m0.standard =
 theorem modesShown_of (cfg : Cfg) (d : XDrv) (g : Ghost) (m : VModes) (hs : Shown d.mode m) (hg : GhostOk cfg d g) :
     modesShown m g = true := by
   obtain ⟨a1, a2, a3, a4, a5⟩ := hs
-  obtain ⟨g1, g2, g3, g4, _, _, _, _⟩ := hg
+  obtain ⟨g1, g2, g3, g4, _, _, _, _, _⟩ := hg
   simp only [modesShown, Bool.and_eq_true, beq_iff_eq, decide_eq_true_eq]
   refine ⟨⟨⟨⟨?_, ?_⟩, ?_⟩, ?_⟩, ?_⟩
   · rw [a1, g1]; simp
@@ -1273,9 +1306,9 @@ theorem modesShown_of (cfg : Cfg) (d : XDrv) (g : Ghost) (m : VModes) (hs : Show
   · rw [a5, g4]; simp
 
 theorem getctlOk_of (cfg : Cfg) (d : XDrv) (g : Ghost) (hg : GhostOk cfg d g) : getctlOk d g = true := by
-  obtain ⟨g1, g2, g3, g4, g5, g6, _, _⟩ := hg
+  obtain ⟨g1, g2, g3, g4, g5, g6, _, _, g9⟩ := hg
   simp only [getctlOk, getctlInt, Bool.and_eq_true, beq_iff_eq, Bool.or_eq_true, Option.isNone_iff_eq_none]
-  refine ⟨⟨⟨⟨⟨?_, ?_⟩, ?_⟩, ?_⟩, ?_⟩, ?_⟩
+  refine ⟨⟨⟨⟨⟨⟨?_, ?_⟩, ?_⟩, ?_⟩, ?_⟩, ?_⟩, ?_⟩
   · rw [g1]
   · rw [g2]
   · rw [g3]
@@ -1286,6 +1319,9 @@ theorem getctlOk_of (cfg : Cfg) (d : XDrv) (g : Ghost) (hg : GhostOk cfg d g) : 
   · cases hb : g.shape with
     | none => left; rfl
     | some x => right; rw [(g6 x hb).1]
+  · cases hb : g.rgb8 with
+    | none => left; rfl
+    | some x => right; rw [(g9 x hb).1]
 
 theorem restoredOk_of (vt : VT) (m0 : VModes) (h0 : Off m0) (h : Off vt.modes) (ha : vt.attrs = Attrs.default) :
     restoredOk vt m0 = true := by
@@ -2161,9 +2197,9 @@ theorem after_inv (cfg : Cfg) (toplevel : Bool) (m0 : VModes) (ops : List Op) (p
     MInv cfg (sysAfter cfg toplevel ops) (vtAfter cfg toplevel m0 ops) ph (ghostAfter cfg toplevel ops) :=
   run_inv cfg ops _ _ .running ph {} (build_inv cfg toplevel m0 hm0) (build_tk toplevel) hv hnt
 
-/-- With the keypad recorded and the replies guarded nothing is a trigger. -/
+/-- With the keypad recorded and the replies guarded (cursor controls and forced RGB8) nothing is a trigger. -/
 theorem triggerFree_of_repaired (cfg : Cfg) (hk : cfg.keypadRecorded = true) (hr : cfg.repliesGuarded = true)
-    (toplevel : Bool) (ops : List Op) : TriggerFree cfg toplevel ops := by
+    (hq : cfg.rgb8Guarded = true) (toplevel : Bool) (ops : List Op) : TriggerFree cfg toplevel ops := by
   unfold TriggerFree
   generalize (Sys.build toplevel).1 = s
   generalize ({} : Ghost) = g
@@ -2172,7 +2208,7 @@ theorem triggerFree_of_repaired (cfg : Cfg) (hk : cfg.keypadRecorded = true) (hr
   | cons op rest ih =>
     simp only [noTrigger, Bool.and_eq_true, Bool.not_eq_true']
     refine ⟨?_, ih _ _⟩
-    cases op <;> simp [trigger, hk, hr]
+    cases op <;> simp [trigger, hk, hr, hq]
     rename_i c v
     cases c with
     | none => rfl
